@@ -286,6 +286,7 @@ func (s *Stream) HandlePacket(pkt drpcwire.Packet) (err error) {
 // finished flag. This must be called after every read or write is complete, as
 // well as when the stream becomes terminated.
 func (s *Stream) checkFinished() {
+	drpcdebug.Point("stream.checkFinished")
 	if s.sigs.term.IsSet() && s.write.Unlocked() && s.read.Unlocked() {
 		if s.sigs.fin.Set(nil) {
 			s.log("FIN", func() string { return "" })
@@ -363,6 +364,7 @@ func (s *Stream) terminate(err error) {
 // RawWrite sends the data bytes with the given kind.
 func (s *Stream) RawWrite(kind drpcwire.Kind, data []byte) (err error) {
 	defer s.checkFinished()
+	drpcdebug.Point("stream.RawWrite.beforeWriteLock")
 	s.write.Lock()
 	defer s.write.Unlock()
 
@@ -382,6 +384,7 @@ func (s *Stream) rawWriteLocked(kind drpcwire.Kind, data []byte) (err error) {
 		case s.sigs.term.IsSet():
 			return s.sigs.term.Err()
 		}
+		drpcdebug.Point("stream.rawWrite.beforeFrame")
 
 		fr.Data, data = drpcwire.SplitData(data, n)
 		fr.Done = len(data) == 0
@@ -400,6 +403,7 @@ func (s *Stream) rawWriteLocked(kind drpcwire.Kind, data []byte) (err error) {
 // RawFlush flushes any buffers of data.
 func (s *Stream) RawFlush() (err error) {
 	defer s.checkFinished()
+	drpcdebug.Point("stream.RawFlush.beforeWriteLock")
 	s.write.Lock()
 	defer s.write.Unlock()
 
@@ -472,6 +476,7 @@ func (s *Stream) MsgSend(msg drpc.Message, enc drpc.Encoding) (err error) {
 	s.flush.Do(func() {})
 
 	defer s.checkFinished()
+	drpcdebug.Point("stream.MsgSend.beforeWriteLock")
 	s.write.Lock()
 	defer s.write.Unlock()
 
@@ -485,6 +490,7 @@ func (s *Stream) MsgSend(msg drpc.Message, enc drpc.Encoding) (err error) {
 	if err := s.rawWriteLocked(drpcwire.KindMessage, wbuf); err != nil {
 		return err
 	}
+	drpcdebug.Point("stream.MsgSend.beforeFlush")
 	if !s.opts.ManualFlush {
 		return s.rawFlushLocked()
 	}
@@ -498,6 +504,7 @@ func (s *Stream) MsgRecv(msg drpc.Message, enc drpc.Encoding) (err error) {
 	}
 
 	defer s.checkFinished()
+	drpcdebug.Point("stream.MsgRecv.beforeReadLock")
 	s.read.Lock()
 	defer s.read.Unlock()
 
@@ -534,12 +541,14 @@ func (s *Stream) SendError(serr error) (err error) {
 	}
 
 	defer s.checkFinished()
+	drpcdebug.Point("stream.SendError.beforeWriteLock")
 	s.write.Lock()
 	defer s.write.Unlock()
 
 	s.sigs.send.Set(io.EOF) // in this state, gRPC returns io.EOF on send.
 	s.terminate(termError)
 	s.mu.Unlock()
+	drpcdebug.Point("stream.SendError.beforeSend")
 
 	return s.checkCancelError(s.sendPacketLocked(drpcwire.KindError, false, drpcwire.MarshalError(serr)))
 }
@@ -550,6 +559,7 @@ func (s *Stream) SendError(serr error) (err error) {
 // for busy if writes are already blocked and a hard cancel is required.
 func (s *Stream) SendCancel(err error) (busy bool, _ error) {
 	s.log("CALL", func() string { return "SendCancel()" })
+	drpcdebug.Point("stream.SendCancel.beforeTryLock")
 
 	if !s.mu.TryLock() { // if we can't inspect if writes are happening, hard cancel.
 		return true, nil
@@ -570,6 +580,7 @@ func (s *Stream) SendCancel(err error) (busy bool, _ error) {
 	s.sigs.send.Set(io.EOF) // in this state, gRPC returns io.EOF on send.
 	s.terminate(err)
 	s.mu.Unlock()
+	drpcdebug.Point("stream.SendCancel.beforeSend")
 
 	return false, s.checkCancelError(s.sendPacketLocked(drpcwire.KindCancel, true, nil))
 }
@@ -586,11 +597,13 @@ func (s *Stream) Close() (err error) {
 	}
 
 	defer s.checkFinished()
+	drpcdebug.Point("stream.Close.beforeWriteLock")
 	s.write.Lock()
 	defer s.write.Unlock()
 
 	s.terminate(termClosed)
 	s.mu.Unlock()
+	drpcdebug.Point("stream.Close.beforeSend")
 
 	return s.checkCancelError(s.sendPacketLocked(drpcwire.KindClose, false, nil))
 }
@@ -608,12 +621,14 @@ func (s *Stream) CloseSend() (err error) {
 	}
 
 	defer s.checkFinished()
+	drpcdebug.Point("stream.CloseSend.beforeWriteLock")
 	s.write.Lock()
 	defer s.write.Unlock()
 
 	s.sigs.send.Set(sendClosed)
 	s.terminateIfBothClosed()
 	s.mu.Unlock()
+	drpcdebug.Point("stream.CloseSend.beforeSend")
 
 	return s.checkCancelError(s.sendPacketLocked(drpcwire.KindCloseSend, false, nil))
 }
@@ -623,6 +638,7 @@ func (s *Stream) CloseSend() (err error) {
 // finished, and returns a boolean indicating if that was the case.
 func (s *Stream) Cancel(err error) bool {
 	s.log("CALL", func() string { return fmt.Sprintf("Cancel(%v)", err) })
+	drpcdebug.Point("stream.Cancel.beforeLock")
 
 	s.mu.Lock()
 	defer s.mu.Unlock()
